@@ -109,6 +109,13 @@ pub fn main() -> i32 {
             eprintln!("depth {d}: nodes {} cache entries {n} in {:.2}s", out.nodes, t.elapsed().as_secs_f64());
             0
         }
+        "gen-deepening" => {
+            let n: usize = args.rest.first().and_then(|x| x.parse().ok()).unwrap_or(20);
+            for (fen, d) in refsearch::generate_deepening(n, 0x5EED_C11) {
+                println!("{d}\t{fen}");
+            }
+            0
+        }
         "gen-mates" => {
             let n: usize = args.rest.first().and_then(|x| x.parse().ok()).unwrap_or(100);
             let profile: u8 = match args.rest.get(1).map(String::as_str) {
